@@ -81,6 +81,13 @@ func c30Determinism() *explore.Scenario {
 				}
 				streams[salt] = string(s1)
 			}
+			// deriving from a seed does not change the seed object the caller holds
+			if *seed != *seedN(i) {
+				r.Violate("C30|seed-object-mutated", "seed %d: the PRNGSeed passed to the constructors was modified", i)
+			}
+			if s2, err := tls.VerifSaltedSeed(seed, "ALPS"); err != nil || s2 == seed || *seed != *seedN(i) {
+				r.Violate("C30|seed-object-mutated|salted", "seed %d: newSaltedPRNGSeed returned its argument or modified it (err %v)", i, err)
+			}
 			// different seeds give different streams
 			o, _ := tls.VerifNewPRNG(seedN(i+1), nil)
 			bo := make([]byte, 32)
